@@ -6,7 +6,8 @@ import time
 
 from .build import VERIF, AnalysisBroken
 
-EVID_DIR = os.path.join(VERIF, "evidence")
+# checks run against a scratch copy (seeded changes, self-tests) must not overwrite the evidence of /repo
+EVID_DIR = os.environ.get("VERIF_EVIDENCE_DIR") or os.path.join(VERIF, "evidence")
 WIT_DIR = os.path.join(EVID_DIR, "witness")
 KNOWN = os.path.join(VERIF, "known_findings.jsonl")
 
